@@ -77,7 +77,7 @@ class Group(Harness):
         mode = self.mode
         if mode in ("aggregate", "count", "helper"):
             cl.append(("result is a DataFrame", T(isinstance(res, Frame))))
-            want = by + {"aggregate": ["k", "n"], "count": ["n"], "helper": ["a1", "a2", "b1", "b2", "c1", "c2", "d1", "d2", "e1", "e2", "f1", "f2"]}[mode]
+            want = by + {"aggregate": ["k", "n"], "count": ["n"], "helper": ["a1", "a2", "b1", "b2", "c1", "c2", "d1", "d2", "e1", "e2", "f1", "f2", "g1", "g2"]}[mode]
             cl.append((f"result columns are {want}", T(res.names == want)))
             if res.names != want: return cl
             m = len(res.cols[by[0]])
@@ -112,7 +112,7 @@ class Group(Harness):
                     cl.append((f"slice {j} contains all rows of group {j}", count_same(gcols, n, okeys[j]) == BV(len(s))))
             if mode == "helper":
                 for j in range(m):
-                    for a, b in (("a1", "a2"), ("b1", "b2"), ("c1", "c2"), ("d1", "d2"), ("e1", "e2"), ("f1", "f2")):
+                    for a, b in (("a1", "a2"), ("b1", "b2"), ("c1", "c2"), ("d1", "d2"), ("e1", "e2"), ("f1", "f2"), ("g1", "g2")):
                         ca, cb = res.cols[a], res.cols[b]
                         cl.append((f"helper {a} equals lambda {b} in summary row {j}",
                                    summary_equal(ca.cells[j], kind_of(ca), cb.cells[j], kind_of(cb))))
